@@ -304,6 +304,47 @@ func genProgram(r *hk.Rand) *program {
 	}
 	// terminal outcome: the context is cancelled, which ends every loop
 	p.Script = append(p.Script, outcome{Kind: "ctxcancel"})
+	// a client-level round-trip wrapper; it may answer an attempt with (nil, err) or hand back
+	// the response together with an error the response does not record
+	if r.Chance(40) {
+		p.Wrap = true
+		for i := range p.Script[:len(p.Script)-1] {
+			if r.Chance(12) {
+				if r.Bool() {
+					p.Script[i] = outcome{Kind: "wrapnil"}
+				} else {
+					p.Script[i] = outcome{Kind: "wrapboth", Status: hk.Pick(r, statuses)}
+				}
+			}
+		}
+	}
+	p.Via = hk.Pick(r, []string{"send", "send", "do", "doplain"})
+	// the same Request object executed again (both entry points), when nothing one-shot is involved
+	mut := false
+	for _, ops := range [][]rop{p.ClientOps, p.ReqOps} {
+		for _, op := range ops {
+			if op.Hook != nil && op.Hook.Kind == "sethdr" {
+				mut = true
+			}
+		}
+	}
+	if sh.BodyKind != "multipart" && !p.unreplayable() && !mut && r.Chance(25) {
+		for i, n := 0, r.Range(1, 2); i < n; i++ {
+			re := reexecSpec{Via: hk.Pick(r, []string{"send", "do", "doplain"})}
+			for j, d := 0, r.Range(0, 4); j < d; j++ {
+				switch k := r.Intn(10); {
+				case k < 5:
+					re.Script = append(re.Script, outcome{Kind: "status", Status: hk.Pick(r, statuses)})
+				case k < 9:
+					re.Script = append(re.Script, outcome{Kind: "err"})
+				default:
+					re.Script = append(re.Script, outcome{Kind: "deadline"})
+				}
+			}
+			re.Script = append(re.Script, outcome{Kind: "ctxcancel"})
+			p.Reexec = append(p.Reexec, re)
+		}
+	}
 	return p
 }
 
@@ -318,6 +359,7 @@ func genUploadProgram(r *hk.Rand) *program {
 	sh.Method = hk.Pick(r, []string{"POST", "PUT", "PATCH"})
 	sh.BodyKind, sh.Body, sh.MPFiles = "multipart", "", nil
 	sh.Ordered = nil // ordered pairs in multipart bodies are not in the upload model
+	p.Reexec = nil
 	kinds := []string{"bytes", "path", "seekcloser", "reader", "customseek", "customplain", "buffer", "osfile"}
 	sh.Chunked = r.Chance(40)
 	for i, nf := 0, r.Range(1, 3); i < nf; i++ {
@@ -490,8 +532,8 @@ func coqCase(p *program, o *observation) (string, bool) {
 	case "reader", "readcloser":
 		gb, reader, unrep = "GBReader", hk.CoqStr(sh.Body), "true"
 	}
-	rs := fmt.Sprintf("(mkR %s %s %s %s %s %s %s %s %s %s 0%%Z %s %s %s %s)", hk.CoqStr(sh.Method), hk.CoqStr(sh.RawQuery), coqAmap(sh.RHeaders), coqCookies(sh.RCookies),
-		coqAmap(sh.RForm), coqAmap(sh.RQuery), body, gb, reader, unrep, hk.CoqStr(sh.path()), coqCookies(sh.RPParams), coqCookies(sh.Ordered), marshal)
+	rs := fmt.Sprintf("(mkR %s %s %s %s %s %s %s %s %s %s %s %s %s %s %s)", hk.CoqStr(sh.Method), hk.CoqStr(sh.RawQuery), coqAmap(sh.RHeaders), coqCookies(sh.RCookies),
+		coqAmap(sh.RForm), coqAmap(sh.RQuery), body, gb, reader, unrep, hk.CoqZ(int64(p.Stale)), hk.CoqStr(sh.path()), coqCookies(sh.RPParams), coqCookies(sh.Ordered), marshal)
 	var script []string
 	for k, oc := range p.Script {
 		var out string
@@ -500,6 +542,12 @@ func coqCase(p *program, o *observation) (string, bool) {
 			out = "(OStatus " + hk.CoqZ(int64(oc.Status)) + ")"
 		case "statuscancel", "statusexpired":
 			out = "(OStatusEnded " + hk.CoqZ(int64(oc.Status)) + ")"
+		case "wrapboth":
+			st := oc.Status
+			if st == 0 {
+				st = 200
+			}
+			out = fmt.Sprintf("(OStatusErr %s 7%%Z)", hk.CoqZ(int64(st)))
 		default:
 			_, ec, canc := outcomeView(oc)
 			out = fmt.Sprintf("(OErr %s %s)", hk.CoqZ(int64(ec)), hk.CoqBool(canc))
@@ -564,6 +612,7 @@ func runC10(r *hk.Run) {
 	r.Header = "From ReqV Require Import Model.C10Run."
 	r.CaseType = "c10_case"
 	r.CheckFn = "c10_check"
+	r.ShardSize = 150 // small shards: a few hundred MB per coqc, so that a loaded machine does not kill one
 	r.Rule = "programs = client-level + request-level retry setters (count in {-1,0,1,2,3,5}, Set/Add condition, Set/Add hook, interval function) x request shape (client/request headers, cookies, query, form; body none/bytes/string/func/reader/readcloser/multipart; 8 methods) x 0-2 request-level after-response middlewares x outcome script of depth <= 6 (+ terminal cancel) executed on a real client over a scripted transport; backoff triples. Non-trivial: at least one retry happened (>= 2 attempts), or the call was refused up front, or a backoff triple with min,max > 0. Distinct by the program's JSON."
 	rng := hk.NewRand(r.Seed)
 	if err := setupUploads(filepath.Join(r.OutDir, "upload")); err != nil {
@@ -590,31 +639,53 @@ func runC10(r *hk.Run) {
 
 // runProgram executes one program on the real client, applies the oracle, emits the Coq case.
 func runProgram(r *hk.Run, p *program) {
-	{
-		o := execute(p)
-		oracle(r, p, &o)
-		e := effectiveOf(p)
-		r.Count(fmt.Sprintf("N=%s", func() string {
-			if !e.Has {
-				return "unset"
-			}
-			return fmt.Sprint(e.N)
-		}()))
-		r.Count(fmt.Sprintf("attempts=%d", len(o.Wires)))
-		r.Count("body=" + bodySig(&p.Shape))
-		r.Count(fmt.Sprintf("conds=%d", len(e.Conds)))
-		r.Count(fmt.Sprintf("hooks=%d", len(e.Hooks)))
-		if len(p.After) > 0 {
-			r.Count("after-response=yes")
+	execs := p.executions()
+	c := newClient(p)
+	applyClientOps(c, p.ClientOps)
+	rs := buildRequest(c, execs[0])
+	var jar [][2]string
+	stale := 0
+	for i, q := range execs {
+		var o observation
+		if i == 0 {
+			rs.send()
+			o = rs.o
+		} else {
+			q.Stale = stale
+			o = rs.again(q, jar)
+			r.Count("reexec.via=" + q.Via)
 		}
+		_, jar = q.jarsBefore(jar, len(o.Wires))
+		stale = o.Attempt
+		oracle(r, q, &o)
+		e := effectiveOf(q)
+		if i == 0 {
+			r.Count(fmt.Sprintf("N=%s", func() string {
+				if !e.Has {
+					return "unset"
+				}
+				return fmt.Sprint(e.N)
+			}()))
+			r.Count("body=" + bodySig(&q.Shape))
+			r.Count(fmt.Sprintf("conds=%d", len(e.Conds)))
+			r.Count(fmt.Sprintf("hooks=%d", len(e.Hooks)))
+			if len(q.After) > 0 {
+				r.Count("after-response=yes")
+			}
+			if q.Wrap {
+				r.Count("wrapper=yes")
+			}
+		}
+		r.Count(fmt.Sprintf("attempts=%d", len(o.Wires)))
 		if o.UpFront {
 			r.Count("upfront-refusal")
 		}
-		key, _ := json.Marshal(p)
-		coq, _ := coqCase(p, &o)
-		r.Add(hk.Case{Coq: coq, Desc: map[string]interface{}{"kind": "run", "program": p, "attempts": len(o.Wires), "final": []int{o.Status, o.Err}}},
+		key, _ := json.Marshal(q)
+		key = append(key, fmt.Sprintf("#%d", i)...)
+		coq, _ := coqCase(q, &o)
+		r.Add(hk.Case{Coq: coq, Desc: map[string]interface{}{"kind": "run", "program": q, "execution": i, "attempts": len(o.Wires), "final": []int{o.Status, o.Err}}},
 			string(key), len(o.Wires) >= 2 || o.UpFront)
-		addCookieCase(r, p, &o, string(key))
+		addCookieCase(r, q, &o, string(key))
 	}
 }
 
